@@ -167,6 +167,29 @@ func runC04(r *Run) {
 			}
 		}
 	}
+	// set operations over composites that contain strings with the renderer's own delimiters, and numeric map keys that
+	// are equal numbers with different bit patterns or spellings (correspondence with the model decides)
+	{
+		elems := []string{`["a, b"]`, `["a", "b"]`, `["a"]`, `["b"]`, `["a", "b, c"]`, `["a, b", "c"]`, `["é, ü"]`, `["é", "ü"]`, `["a\", \"b"]`, `["1", "2"]`, `["1, 2"]`}
+		for _, a := range elems {
+			for _, b := range elems {
+				for _, op := range []string{"union", "intersect", "diff"} {
+					judgeBackendsQuiet(evalCase{fmt.Sprintf("%s([%s], [%s, %s])", op, a, b, a), false}, vars)
+				}
+				judgeBackendsQuiet(evalCase{fmt.Sprintf("[%s] == [%s]", a, b), false}, vars)
+				r.Count("set-op programs over string composites")
+			}
+		}
+		keys := []string{"0", "-(0)", "ceil(-(0.5))", "0 * -(3)", "round(-(0.2))", "1", "1.0", "0.5 + 0.5", "0.1 + 0.2", "0.3", "9007199254740992", "9007199254740993", "1e19", "9223372036854775808", "-(9223372036854775808)", "2.5", "x - 3"}
+		for _, k1 := range keys {
+			for _, k2 := range keys {
+				for _, tpl := range []string{`[%s: "a", 7: "b"][%s]`, `get([%s: "a"], %s, "none")`, `isset([%s: 1], %s)`, `len([%s: 1, %s: 2])`, `[%s: 1] == [%s: 1]`, `string([%s: 1]) == string([%s: 1])`} {
+					judgeBackendsQuiet(evalCase{fmt.Sprintf(tpl, k1, k2), false}, vars)
+				}
+				r.Count("numeric-map-key programs")
+			}
+		}
+	}
 	for _, s := range []string{`1e-9 == 0`, `0.1 + 0.2 == 0.3`, `len("héllo")`, `union([1, 2, 2], [2, 3])`, `get(xs, 1, 0)`, `string([1.5, 1e19])`, `0x1f + 0b101 + 0o17`, `2 ^ 0.5`, `round(-(2.5))`, `t0 - t1`} {
 		r.Sample(s)
 	}
